@@ -109,6 +109,7 @@ struct C15 : Scenario {
         Rng r(plan.getu("pseed"));
         const double sigma = 1.5;
         long judged = 0;
+        double maxflowdev = 0;
         for (long t = 0; t < plan.geti("nparticles", 30); t++) {
             double px = r.uniform(0, n - 1), py = r.uniform(0, n - 1);
             // displacement the particle's row is going to get (for the margin)
@@ -127,7 +128,10 @@ struct C15 : Scenario {
             const float* od = out->getData();
             for (unsigned x = 0; x < n; x++) for (unsigned y = 0; y < n; y++) { double v = od[x * n + y]; sw += v; mx += v * x; my += v * y; }
             mx /= sw; my /= sw;
-            double tol = 0.02 + 0.5 * slope * sigma * sigma;
+            // all displacement fields used here are linear in the row index, so a symmetric blob moves exactly like its centre;
+            // what remains is rounding (measured: < 5e-6 cell for interpolation orders 2-4)
+            double tol = 1e-3;    // worst observed on the tree: 4.6e-6 cell
+            maxflowdev = std::max(maxflowdev, std::max(std::fabs(mx - pos.x), std::fabs(my - pos.y)));
             o.checks++; judged++; o.probe("reach.flow_judged");
             if (std::fabs(mx - pos.x) > tol || std::fabs(my - pos.y) > tol)
                 o.fail("C15.flow_" + kind, "particle at (" + fmt_g(px, 6) + "," + fmt_g(py, 6) + ") moved to (" + fmt_g(pos.x, 7) + "," + fmt_g(pos.y, 7) + ") but the charge around it moved to (" + fmt_g(mx, 7) + "," + fmt_g(my, 7) + "); tolerance " + fmt_g(tol, 3) + " cells, grid " + std::to_string(n) + ", shifts " + fmt_g(sx, 3) + "," + fmt_g(sy, 3));
@@ -137,7 +141,7 @@ struct C15 : Scenario {
         o.probe("cls.flow." + kind + ".ip" + std::to_string((int)it) + (sx != sy ? ".uneq" : sx != 0 ? ".eq" : ".centred"));
         o.nontrivial = judged > 0;
         o.mixfp((uint64_t)judged);
-        o.sample = "flow " + kind + " n=" + std::to_string(n) + " interp=" + std::to_string((int)it) + " judged=" + std::to_string(judged);
+        o.sample = "flow " + kind + " n=" + std::to_string(n) + " interp=" + std::to_string((int)it) + " judged=" + std::to_string(judged) + " maxdev=" + fmt_g(maxflowdev, 4);
     }
 
     // ------------------------------------------------------------------ bounds / ensemble
